@@ -551,11 +551,20 @@ def make_dict_hash(d):
     # of the (unordered) set of items.
     # The hash will be the same for two dictionaries having the same items.
     #
-    # Float values enter with their exact representation, because the hashes of
-    # different floats can be equal (hash(-1.0) == hash(-2.0) in CPython), which
-    # would give two different grid values the same dictionary hash.
+    # Numbers enter with the exact representation of their float value, because
+    # the hashes of different numbers can be equal (hash(-1.0) == hash(-2.0) and
+    # hash(-1) == hash(-2) in CPython), which would give two different grid
+    # values the same dictionary hash. Numbers that compare equal, e.g. 2,
+    # 2.0 and numpy.float32(2), get the same representation.
+    def _value_repr(v):
+        if isinstance(v, (bool, int, float, np.bool_, np.integer, np.floating)):
+            f = float(v)
+            if (f == v) or (f != f):
+                return (f + 0.0).hex()
+        return v
+
     return hash(frozenset(
-        (k, (float(v) + 0.0).hex() if isinstance(v, (float, np.floating)) else v)
+        (k, _value_repr(v))
         for (k, v) in d.items()
     ))
 
